@@ -10,6 +10,7 @@ import (
 	"context"
 	"errors"
 	"fmt"
+	"os"
 	"sort"
 	"strings"
 	"sync"
@@ -30,6 +31,7 @@ import (
 	pubsub "github.com/libp2p/go-libp2p-pubsub"
 	rpc "github.com/libp2p/go-libp2p-gorpc"
 	multiaddr "github.com/multiformats/go-multiaddr"
+	multihash "github.com/multiformats/go-multihash"
 )
 
 // ---------------------------------------------------------------- fault-injecting datastore
@@ -45,6 +47,8 @@ type vc02FaultDS struct {
 
 	mu       sync.Mutex
 	failAt   map[int]bool
+	failQ    map[int]bool // 1-based indices of the element queries (set.Rmv / InSet) that return an error; only from a given input
+	nQuery   int
 	nCounted int
 	lastFail string   // kind of the last failed commit ("tombs" | "elems" | "heads"), reset by the caller
 	log      []string // kinds of counted commits, "!" appended when failed
@@ -67,7 +71,18 @@ func newVC02FaultDS(ns string, failAt []int) *vc02FaultDS {
 func (d *vc02FaultDS) Get(k ds.Key) ([]byte, error)              { return d.inner.Get(k) }
 func (d *vc02FaultDS) Has(k ds.Key) (bool, error)                { return d.inner.Has(k) }
 func (d *vc02FaultDS) GetSize(k ds.Key) (int, error)             { return d.inner.GetSize(k) }
-func (d *vc02FaultDS) Query(q query.Query) (query.Results, error) { return d.inner.Query(q) }
+func (d *vc02FaultDS) Query(q query.Query) (query.Results, error) {
+	if len(d.failQ) > 0 && strings.HasPrefix(q.Prefix, d.ns+"/s/s/") {
+		d.mu.Lock()
+		d.nQuery++
+		fail := d.failQ[d.nQuery]
+		d.mu.Unlock()
+		if fail {
+			return nil, errVC02Injected
+		}
+	}
+	return d.inner.Query(q)
+}
 func (d *vc02FaultDS) Put(k ds.Key, v []byte) error              { return d.inner.Put(k, v) }
 func (d *vc02FaultDS) Delete(k ds.Key) error                     { return d.inner.Delete(k) }
 func (d *vc02FaultDS) Sync(k ds.Key) error                       { return d.inner.Sync(k) }
@@ -139,6 +154,8 @@ type vc02Ev struct {
 	Op   *vc02Op `json:"op,omitempty"`
 	Ok   bool   `json:"ok"`
 	Pres string `json:"pres,omitempty"` // "" (ok) | tombs | elems | heads
+	At   int64  `json:"at"`             // microseconds since the case started, when the event was recorded
+	Panic string `json:"panic,omitempty"` // the call panicked (recovered by the harness)
 	done bool
 }
 
@@ -148,6 +165,12 @@ type vc02Op struct {
 	V   int  `json:"v"`   // variant (input)
 	R   int  `json:"r"`   // rank of the value bytes within the case (filled when printing)
 }
+
+var errVC02Panic = errors.New("verif: the call panicked (recovered by the harness)")
+
+// VERIF_C02_NORECOVER=1: let a panic of the code under test kill the test process (exercises the runner's crash path:
+// the per-case markers of vCaseStartKey name the cases that were in flight)
+var vc02NoRecover = os.Getenv("VERIF_C02_NORECOVER") != ""
 
 // ---------------------------------------------------------------- gate around css.batchingState
 
@@ -159,8 +182,10 @@ type vc02Gate struct {
 	fds  *vc02FaultDS
 	size int
 
+	t0        time.Time // start of the case: origin of the event clock
 	mu        sync.Mutex
 	trace     []*vc02Ev
+	panics    []string
 	holdNext  bool
 	holding   bool
 	release   chan struct{}
@@ -183,7 +208,7 @@ func vc02CtxID(ctx context.Context) int {
 // enter: the worker has dequeued the item (identified by the id carried in its context) and calls Add/Rm
 func (g *vc02Gate) enter(ctx context.Context) *vc02Ev {
 	g.mu.Lock()
-	ev := &vc02Ev{Kind: "add", ID: vc02CtxID(ctx)}
+	ev := &vc02Ev{Kind: "add", ID: vc02CtxID(ctx), At: g.since()}
 	g.trace = append(g.trace, ev)
 	g.inCall = true
 	var rel chan struct{}
@@ -214,29 +239,50 @@ func (g *vc02Gate) exit(ev *vc02Ev, err error) {
 	g.mu.Unlock()
 }
 
+func (g *vc02Gate) since() int64 { return int64(time.Since(g.t0) / time.Microsecond) }
+
+// a panic inside the code under test on the worker goroutine would kill the whole test process; it is recovered here,
+// recorded (the case is then reported as a direct violation) and turned into an error so that the worker goes on
+func (g *vc02Gate) guarded(ev *vc02Ev, what string, f func() error) (err error) {
+	if vc02NoRecover {
+		return f()
+	}
+	defer func() {
+		if r := recover(); r != nil {
+			msg := fmt.Sprintf("%s: %v", what, r)
+			g.mu.Lock()
+			ev.Panic = msg
+			g.panics = append(g.panics, msg)
+			g.mu.Unlock()
+			err = errVC02Panic
+		}
+	}()
+	return f()
+}
+
 func (g *vc02Gate) Add(ctx context.Context, pin *api.Pin) error {
 	ev := g.enter(ctx)
-	err := g.BatchingState.Add(ctx, pin)
+	err := g.guarded(ev, "batchingState.Add", func() error { return g.BatchingState.Add(ctx, pin) })
 	g.exit(ev, err)
 	return err
 }
 
 func (g *vc02Gate) Rm(ctx context.Context, c cid.Cid) error {
 	ev := g.enter(ctx)
-	err := g.BatchingState.Rm(ctx, c)
+	err := g.guarded(ev, "batchingState.Rm", func() error { return g.BatchingState.Rm(ctx, c) })
 	g.exit(ev, err)
 	return err
 }
 
 func (g *vc02Gate) Commit(ctx context.Context) error {
 	g.mu.Lock()
-	ev := &vc02Ev{Kind: "commit"}
+	ev := &vc02Ev{Kind: "commit", At: g.since()}
 	g.trace = append(g.trace, ev)
 	g.inCall = true
 	g.expect = false
 	g.mu.Unlock()
 	g.fds.resetLastFail()
-	err := g.BatchingState.Commit(ctx)
+	err := g.guarded(ev, "batchingState.Commit", func() error { return g.BatchingState.Commit(ctx) })
 	kind := g.fds.takeLastFail()
 	g.mu.Lock()
 	ev.Ok = err == nil
@@ -300,6 +346,30 @@ var vc02Cids = []cid.Cid{test.Cid1, test.Cid2, test.Cid3, test.Cid4, test.Cid5}
 
 const vc02NCids = 3
 const vc02NVariants = 12
+
+// trickle cases use their own CIDs, one per operation: keys 100 .. 100+vc02NTCids-1
+const vc02NTCids = 64
+const vc02TKeyBase = 100
+
+var vc02TCids = func() []cid.Cid {
+	out := make([]cid.Cid, vc02NTCids)
+	for i := range out {
+		h, err := multihash.Sum([]byte(fmt.Sprintf("vc02-trickle-%d", i)), multihash.SHA2_256, -1)
+		if err != nil {
+			panic(err)
+		}
+		out[i] = cid.NewCidV1(cid.Raw, h)
+	}
+	return out
+}()
+
+// vc02KeyCid: the CID of a key of the Coq term (0..2 the shared CIDs, 100.. the trickle CIDs)
+func vc02KeyCid(k int) cid.Cid {
+	if k >= vc02TKeyBase {
+		return vc02TCids[(k-vc02TKeyBase)%vc02NTCids]
+	}
+	return vc02Cid(k)
+}
 
 func vc02Cid(i int) cid.Cid {
 	if i < 0 {
@@ -407,6 +477,11 @@ func vc02CidIndex(c cid.Cid) int {
 			return i
 		}
 	}
+	for i := range vc02TCids {
+		if vc02TCids[i].Equals(c) {
+			return vc02TKeyBase + i
+		}
+	}
 	return 99
 }
 
@@ -462,7 +537,7 @@ func newVC02PeerOn(t *testing.T, h host.Host, psub *pubsub.PubSub, dht *dual.DHT
 	}
 	p.cc = cc
 	if cfg.batchingEnabled() {
-		p.g = &vc02Gate{BatchingState: cc.batchingState, fds: p.fds, size: size}
+		p.g = &vc02Gate{BatchingState: cc.batchingState, fds: p.fds, size: size, t0: time.Now()}
 		cc.batchingState = p.g // before any item is submitted: the worker reads the field after receiving from the channel
 	}
 	return p
